@@ -12,11 +12,11 @@ Require Import MS.Base.GoInt MS.Base.Res MS.Base.Hex MS.Base.Bytes MS.Base.Tz MS
 Local Open Scope Z_scope.
 
 (** Guarded statement.  For EVERY tick codec (get_ticks, time_from_ticks: any functions), EVERY initial
-    store shared by master and replica and EVERY history of transaction groups that are well formed and
-    homogeneous ([run_okb]: each TG all FIXED or all VARIABLE, intraday timeframe tiling the day in whole
-    seconds, (year, index) naming a slot, payloads of the bucket's record length, the decoded nanoseconds
-    inside the interval): the replica replays the whole history without error, and its store is EXACTLY
-    the store of a master that received the same history with every VARIABLE record re-ticked from
+    store shared by master and replica and EVERY history of transaction groups whose write sets are well
+    formed ([run_okb]: FIXED and VARIABLE sets in any mixture, timeframe of whole seconds tiling the day,
+    (year, index) naming a slot, payloads of the bucket's record length, the decoded nanoseconds inside
+    the interval): the replica replays the whole history without error, and its store is EXACTLY the
+    store of a master that received the same history with every VARIABLE record re-ticked from
     (interval start + nanosecond part) -- [retick]. *)
 Theorem C25_guarded : forall gt tft tgs st,
   run_okb gt tft st tgs = true ->
@@ -92,27 +92,18 @@ Proof.
 Qed.
 Print Assumptions C25_refuted_seconds.
 
-(** [Finding mixed-record-types-in-tg, F21b]  A variable bucket exists on both sides (first TG); the
-    second TG carries a FIXED write set followed by a VARIABLE one: Replay writes both with
-    isVariableLength = (first set is VARIABLE) = false, the Nanoseconds column is not removed from the
-    second set, WriteCSM rejects it ("unable to match data columns") and the receiver stops. *)
+(** [F21b mixed-record-types-in-tg is FIXED in /repo: Replay uses each write set's own record type; the
+    former witness, a FIXED set followed by a VARIABLE one, is part of the non-vacuity example below.] *)
 Definition w_v1 : ws := mkws RT_VARIABLE (b "VVV/1Sec/TICK") second 2020 5486438 ([x01; x00; x00; x00] ++ le_bytes 4 0) 8 sh_A.
 Definition w_f  : ws := mkws RT_FIXED (b "FFF/1Min/OHLC") minute 2020 91442 [x02; x00; x00; x00] 0 sh_A.
 Definition w_v2 : ws := mkws RT_VARIABLE (b "VVV/1Sec/TICK") second 2020 5486439 ([x03; x00; x00; x00] ++ le_bytes 4 0) 8 sh_A.
 
-Theorem C25_refuted_mixed : ~ C25_full.
-Proof.
-  intros H. destruct (H [[w_v1]; [w_f; w_v2]] ltac:(vm_compute; reflexivity)) as (sr & Hr & _).
-  vm_compute in Hr. discriminate Hr.
-Qed.
-Print Assumptions C25_refuted_mixed.
-
-(** Non-vacuity: a history with a FIXED transaction group of two write sets, then a VARIABLE 1Sec group,
-    then a second FIXED write to the same slot, meets the guard of C25_guarded with the concrete codec,
-    and the replica converges on it. *)
+(** Non-vacuity: a history with a FIXED transaction group of two write sets, a VARIABLE 1Sec set, a MIXED
+    group (FIXED overwrite of a slot followed by a VARIABLE set: the former F21b witness) meets the guard
+    of C25_guarded with the concrete codec, and the replica converges on it. *)
 Definition w_f2 : ws := mkws RT_FIXED (b "FFF/1Min/OHLC") minute 2020 91443 [x05; x00; x00; x00] 0 sh_A.
 Definition w_f3 : ws := mkws RT_FIXED (b "FFF/1Min/OHLC") minute 2020 91442 [x07; x00; x00; x00] 0 sh_A.
-Definition ex_hist : list (list ws) := [[w_f; w_f2]; [w_v1; w_v2]; [w_f3]].
+Definition ex_hist : list (list ws) := [[w_f; w_f2]; [w_v1]; [w_f3; w_v2]].
 
 Example C25_nonvacuous :
   run_okb gt tft [] ex_hist = true /\
